@@ -26,6 +26,8 @@ pub struct Plan {
     pub manifest_free: bool,
     /// walk packs and contents from the highest pack id down (the extra packs are then looked up before the main pack)
     pub reverse: bool,
+    /// ask the container and the directory pack to check themselves BEFORE anything else is read (and again at the end)
+    pub checks_first: bool,
     /// also run the integrity checks
     pub checks: bool,
     /// hash content bytes (else only sizes)
@@ -74,7 +76,7 @@ pub fn plan_for(case: &ContCase, created: Option<&CreatedCont>) -> Plan {
     addrs.sort();
     addrs.dedup();
     let pack_ids = (0..top + 2).collect();
-    Plan { indexes, addrs, pack_ids, checks: true, bytes: true, manifest_free: true, reverse: false }
+    Plan { indexes, addrs, pack_ids, checks: true, bytes: true, manifest_free: true, reverse: false, checks_first: false }
 }
 
 fn val_str(v: &Val) -> String {
@@ -136,7 +138,11 @@ pub fn dump_container(path: &Path, plan: &Plan) -> Dump {
         pack_ids.reverse();
         addrs.reverse();
     }
-    let plan = &Plan { indexes: plan.indexes.clone(), addrs, pack_ids, checks: plan.checks, bytes: plan.bytes, manifest_free: plan.manifest_free, reverse: plan.reverse };
+    let plan = &Plan { indexes: plan.indexes.clone(), addrs, pack_ids, checks: plan.checks, bytes: plan.bytes, manifest_free: plan.manifest_free, reverse: plan.reverse, checks_first: plan.checks_first };
+    if plan.checks_first {
+        item(&mut d, "check/early/container".into(), || container.check().map_err(|e| e.to_string()), |v| v.to_string());
+        item(&mut d, "check/early/directory_pack".into(), || container.get_directory_pack().check().map_err(|e| e.to_string()), |v| v.to_string());
+    }
     for id in &plan.pack_ids {
         item(
             &mut d,
@@ -292,7 +298,7 @@ pub fn dump_container(path: &Path, plan: &Plan) -> Dump {
             |v| v.1.clone(),
         );
         if let (Some((Some(region), _)), true) = (got, plan.bytes) {
-            item(
+            let read = item(
                 &mut d,
                 format!("content/{pack}/{id:06}/bytes"),
                 || {
@@ -302,6 +308,11 @@ pub fn dump_container(path: &Path, plan: &Plan) -> Dump {
                 },
                 |v| format!("len={} b3={}", v.len(), &blake3::hash(v).to_hex()[..16]),
             );
+            // how many bytes the stream delivered before ending without an error (a structural item: a stream that stops
+            // short of the size it announced, silently, is not "other bytes")
+            if let Some(v) = read {
+                d.insert(format!("content/{pack}/{id:06}/streamed"), format!("ok:{}", v.len()));
+            }
         }
     }
     if plan.checks {
@@ -405,6 +416,7 @@ pub fn expected_dump(case: &ContCase, created: &CreatedCont, plan: &Plan) -> Dum
                 d.insert(key.clone(), format!("ok:found:size={}", b.len()));
                 if plan.bytes {
                     d.insert(format!("{key}/bytes"), format!("ok:len={} b3={}", b.len(), &blake3::hash(b).to_hex()[..16]));
+                    d.insert(format!("{key}/streamed"), format!("ok:{}", b.len()));
                 }
             }
             None => {
